@@ -53,7 +53,7 @@ fn pkg_c() -> RegPackage {
   }
 }
 
-pub const N_SCENARIOS: usize = 16;
+pub const N_SCENARIOS: usize = 17;
 
 pub fn scenario(i: usize) -> Scenario {
   let u = |s: &str| url(s);
@@ -297,6 +297,26 @@ pub fn scenario(i: usize) -> Scenario {
       s.describe = json!({"root": "import jsr:@s/p@^1.0.0-beta.1; import jsr:@s/p@1.0.0-beta.2; import jsr:@s/q@^1", "registry": "@s/p 1.0.0-beta.1 1.0.0-beta.2 1.0.0-beta.10 1.0.0-rc.1; @s/q 0.9.0 1.0.0+a 1.0.0+b (the version maps of the metadata iterate in every order)"});
       s
     }
+    16 => {
+      // as 7, and one of the files whose content load is deferred is also
+      // asked for in a way the builder rejects (css import without the
+      // unstable flag): its entry becomes an error while the load is queued
+      let mut s = base(
+        "embedded-module-graph-with-a-deferred-file-that-a-second-import-turns-into-an-error",
+        &[("https://x/root.ts", "import \"jsr:@s/a@1.1\";\nawait import(\"https://jsr.io/@s/a/1.1.0/x.ts\", { with: { type: \"css\" } });\n")],
+        &["https://x/root.ts"],
+      );
+      s.install = Box::new(|l| {
+        l.add_text("https://x/root.ts", "import \"jsr:@s/a@1.1\";\nawait import(\"https://jsr.io/@s/a/1.1.0/x.ts\", { with: { type: \"css\" } });\n");
+        let mut p = pkg_a();
+        for v in &mut p.versions {
+          v.embed_module_graph = true;
+        }
+        p.install(l);
+      });
+      s.cached_only_empty = true;
+      s
+    }
     _ => unreachable!(),
   }
 }
@@ -526,7 +546,7 @@ pub fn prop(tier: Tier) -> Prop {
     },
     Part {
       name: "schedules-embedded",
-      body: Box::new(body(vec![7], false)),
+      body: Box::new(body(vec![7, 16], false)),
       modes: vec![Mode::Deviations(2), Mode::Deviations(3)],
       what: "registry package with embedded module info: deferred content loads (FuturesUnordered), deviation-bounded schedules",
     },
@@ -563,7 +583,7 @@ pub fn prop(tier: Tier) -> Prop {
       },
       Part {
         name: "schedules-embedded",
-        body: Box::new(body(vec![7], true)),
+        body: Box::new(body(vec![7, 16], true)),
         modes: vec![Mode::Deviations(3), Mode::Deviations(4), Mode::Deviations(5)],
         what: "registry package with embedded module info: deferred content loads, both executors",
       },
